@@ -64,6 +64,13 @@ def gen_tree(rng, base):
 
 def write_tree(pkgs, base):
     for p in pkgs:
+        if p.kind == "registry" and _LINK_RNG.random() < 0.3 and not os.path.lexists(p.root):
+            # the package directory under build/packages is a symbolic link into a shared store (a package cache): the
+            # package is still the one under build/packages - external, found under that path
+            real = f"{base}/cache/{p.name}-1.0.0"
+            os.makedirs(real, exist_ok=True)
+            os.makedirs(os.path.dirname(p.root), exist_ok=True)
+            os.symlink(real, p.root)
         os.makedirs(p.root, exist_ok=True)
         lines = [f'name = "{p.name}"', "[dependencies]"]
         byname = {q.name: q for q in pkgs}
@@ -346,6 +353,16 @@ def run_e2e_manifest(res, tb, rng, prop):
     app_src = f"import {dep}\n\npub fn main() {{\n  {dep}.hello()\n}}\n"
     w(f"{tb}/gleam.toml", good)
     w(f"{tb}/src/app.gleam", app_src)
+    # the dependency's directory - or the whole build directory - may be a symbolic link into a package cache: the
+    # dependency is still what lives under build/packages, whatever the link points to
+    linked = rng.choice(["no", "no", "package", "build"])
+    if linked == "package":
+        os.makedirs(f"{tb}/cache/{dep}-1.0.0", exist_ok=True)
+        os.makedirs(f"{tb}/build/packages", exist_ok=True)
+        os.symlink(f"{tb}/cache/{dep}-1.0.0", f"{tb}/build/packages/{dep}")
+    elif linked == "build":
+        os.makedirs(f"{tb}/out-of-tree", exist_ok=True)
+        os.symlink(f"{tb}/out-of-tree", f"{tb}/build")
     w(f"{tb}/build/packages/{dep}/gleam.toml", f'name = "{dep}"\nversion = "1.0.0"\n')
     w(f"{tb}/build/packages/{dep}/src/{dep}.gleam", dep_src)
     toml_uri = "file://" + f"{tb}/gleam.toml"
